@@ -2,11 +2,17 @@
 //! generated cases and writes one protocol line per case for the Lean driver.
 mod c02;
 mod c08;
+mod c19;
 mod c20;
 mod util;
+mod voices;
 
 fn main() {
     let args: Vec<String> = std::env::args().collect();
+    if args.len() >= 2 && args[1] == "voice-selftest" {
+        selftest();
+        return;
+    }
     if args.len() < 3 || args[1] != "gen" {
         eprintln!("usage: jbharness gen <Cxx> [--seed N] [--tier quick|thorough]");
         std::process::exit(2);
@@ -33,10 +39,40 @@ fn main() {
         "C02" => c02::gen(seed, thorough),
         "C08" => c08::gen_c08(seed, thorough),
         "C09" => c08::gen_c09(seed, thorough),
+        "C10" => c19::gen_c10(seed, thorough),
+        "C19" => c19::gen_c19(seed, thorough),
         "C20" => c20::gen(seed, thorough),
         _ => {
             eprintln!("unknown property {}", prop);
             std::process::exit(2);
+        }
+    }
+}
+
+fn selftest() {
+    use util::*;
+    let pool = voices::question_pool();
+    eprintln!("question pool: {}", pool.len());
+    let mut rng = Rng::new(7);
+    let corpus = corpus();
+    for i in 0..40 {
+        let cfg = voices::VoiceCfg { nstream: 2 + (i % 2), stage: if i % 4 < 2 { 0 } else { 1 + i % 3 }, nstate: 1 + i % 7, max_leaves: 6 };
+        let spec = voices::VoiceSpec::random(&mut rng, &cfg, &pool);
+        let path = format!("{}/voices/selftest_{}.htsvoice", voices::work_dir(), i);
+        spec.write(&path);
+        let r = catch(std::panic::AssertUnwindSafe(|| jbonsai::Engine::load(&[&path])));
+        match r {
+            Ok(Ok(e)) => {
+                let labels: Vec<String> = corpus[10..14].to_vec();
+                let w = catch(std::panic::AssertUnwindSafe(|| e.synthesize(labels)));
+                match w {
+                    Ok(Ok(w)) => eprintln!("voice {i} nstream={} stage={} nstate={}: {} samples, finite={}", cfg.nstream, cfg.stage, cfg.nstate, w.len(), w.iter().all(|x| x.is_finite())),
+                    Ok(Err(e)) => eprintln!("voice {i}: synth err {e}"),
+                    Err(site) => eprintln!("voice {i} nstream={} stage={}: synth PANIC {site}", cfg.nstream, cfg.stage),
+                }
+            }
+            Ok(Err(e)) => eprintln!("voice {i}: load err {e}"),
+            Err(site) => eprintln!("voice {i}: load PANIC {site}"),
         }
     }
 }
